@@ -976,4 +976,13 @@ def unregister (t : Table) (sym : Str) : Table := { t with ctors := t.ctors.filt
 
 end Table
 
+/-! ### the lookup rule on paths `full_pathfy` does not produce -/
+
+/-- position of the last child carrying the tag (what an element without index addresses, `finder.py:65-68`) -/
+def lastIdxWithTag (t : Str) : List Entry → Option Nat
+  | [] => none
+  | c :: rest => match lastIdxWithTag t rest with
+    | some j => some (j + 1)
+    | none => if c.name == t then some 0 else none
+
 end Tranp.AstPath
